@@ -71,7 +71,10 @@ class Workspace:
             f.write("[workspace]\nmembers = %s\nresolver = \"3\"\n[workspace.package]\nedition = \"2024\"\n"
                     "[workspace.dependencies]\npavex = { path = \"%s/runtime/pavex\", features = [\"server\"] }\n"
                     "[profile.dev]\ndebug = \"none\"\n" % (json.dumps(members), repo))
-        shutil.copy(os.path.join(repo, "compiler", "ui_tests", "Cargo.lock"), os.path.join(r, "Cargo.lock"))
+        lock = os.path.join(repo, "compiler", "ui_tests", "Cargo.lock")
+        if not os.path.exists(lock):  # git-ignored upstream: absent from fresh worktrees of the repository
+            lock = os.path.join(pxvlib.VERIF, "tools", "e2e_workspace.Cargo.lock")
+        shutil.copy(lock, os.path.join(r, "Cargo.lock"))
         with open(os.path.join(r, "app", "Cargo.toml"), "w") as f:
             f.write("[package]\nname = \"app\"\nversion = \"0.1.0\"\nedition = \"2024\"\n"
                     "[lints.rust.unexpected_cfgs]\nlevel = \"allow\"\ncheck-cfg = [\"cfg(pavex_ide_hint)\"]\n"
